@@ -210,6 +210,9 @@ class World:
 
     def bucket_fault(self, role, name, id_):
         """Fault choice at every bucket call: default succeed; deviation = raise."""
+        if getattr(self, "bucket_down", False) and name == "store_bucket":
+            # not a choice: the result store is unavailable for the whole run
+            return ConnectionError(f"{role} bucket broker unavailable ({name})")
         if not getattr(self, "bucket_faults", False) or self.chooser is None:
             return None
         if self.chooser.choose(f"fault:{role}.{name}", 2):
